@@ -113,3 +113,81 @@ Proof.
   exact (walk_cfi_order_independent bytes_eqb bytes_eqb_spec bytes_ltb bytes_ltb_irrefl bytes_ltb_trans bytes_ltb_total
            a64_step iter1 iter2 written (a64_forwarded callee) P1 P2).
 Qed.
+
+(* ---- MultiSymbolProvider::stats: what a lookup in the merged map returns does not depend on the iteration order of any
+   provider's map: the last provider (in Vec order) that has the key decides *)
+Section Merge.
+Context {K V : Type} (keqb : K -> K -> bool).
+Hypothesis keqb_spec : forall a b, keqb a b = true <-> a = b.
+
+Lemma lookup_fold_insert : forall (l m : list (K * V)) k,
+  lookup keqb k (fold_left (fun m r => map_insert keqb (fst r) (snd r) m) l m) =
+  match lookup keqb k (rev l) with Some v => Some v | None => lookup keqb k m end.
+Proof.
+  induction l as [|[k0 v0] t IH] using rev_ind; intros m k; [reflexivity|].
+  rewrite fold_left_app. cbn [fold_left fst snd]. rewrite (lookup_insert keqb keqb_spec).
+  rewrite rev_app_distr. cbn [rev app lookup]. destruct (keqb k k0); [reflexivity|apply IH].
+Qed.
+
+Lemma lookup_app (l1 l2 : list (K * V)) k :
+  lookup keqb k (l1 ++ l2) = match lookup keqb k l1 with Some v => Some v | None => lookup keqb k l2 end.
+Proof. induction l1 as [|[k0 v0] t IH]; cbn [app lookup]; [reflexivity|]. destruct (keqb k k0); [reflexivity|exact IH]. Qed.
+
+Lemma lookup_not_in (l : list (K * V)) k : ~ In k (map fst l) -> lookup keqb k l = None.
+Proof.
+  induction l as [|[k0 v0] t IH]; cbn [lookup map fst]; intros H; [reflexivity|].
+  destruct (keqb k k0) eqn:E; [apply keqb_spec in E; subst; exfalso; apply H; left; reflexivity|].
+  apply IH. intros X. apply H. right. exact X.
+Qed.
+
+(* a map has one entry per key: looking a key up does not depend on the order its entries are listed in *)
+Lemma lookup_perm (l l' : list (K * V)) k :
+  Permutation l l' -> NoDup (map fst l) -> lookup keqb k l = lookup keqb k l'.
+Proof.
+  induction 1 as [|[k0 v0] l l' HP IH|[k1 v1] [k2 v2] l|l l' l'' H1 IH1 H2 IH2]; intros ND.
+  - reflexivity.
+  - cbn [lookup]. inversion ND; subst. destruct (keqb k k0); [reflexivity|apply IH; assumption].
+  - cbn [lookup]. cbn [map fst] in ND. inversion ND as [|? ? Hn ND']; subst.
+    destruct (keqb k k1) eqn:E1; destruct (keqb k k2) eqn:E2; try reflexivity.
+    apply keqb_spec in E1, E2. subst. exfalso. apply Hn. left. reflexivity.
+  - rewrite IH1 by assumption. apply IH2. eapply Permutation_NoDup; [apply Permutation_map; exact H1|exact ND].
+Qed.
+
+Lemma lookup_rev (l : list (K * V)) k : NoDup (map fst l) -> lookup keqb k (rev l) = lookup keqb k l.
+Proof. intros ND. symmetry. apply lookup_perm; [apply Permutation_rev|exact ND]. Qed.
+
+(* the merged map, as a function: the last provider that knows the key *)
+Fixpoint merged_spec (maps : list (list (K * V))) (k : K) : option V :=
+  match maps with
+  | [] => None
+  | m :: rest => match merged_spec rest k with Some v => Some v | None => lookup keqb k m end
+  end.
+
+Lemma merge_stats_spec : forall (maps : list (list (K * V))) k,
+  Forall (fun m => NoDup (map fst m)) maps ->
+  lookup keqb k (merge_stats keqb maps) = merged_spec maps k.
+Proof.
+  intros maps k HF. unfold merge_stats. rewrite lookup_fold_insert. cbn [lookup].
+  induction HF as [|m rest Hm HF IH]; [reflexivity|].
+  cbn [concat merged_spec]. rewrite rev_app_distr, lookup_app.
+  destruct (lookup keqb k (rev (concat rest))) as [v|] eqn:E.
+  - rewrite <- IH. reflexivity.
+  - rewrite <- IH. rewrite (lookup_rev m k Hm). destruct (lookup keqb k m); reflexivity.
+Qed.
+
+Lemma merge_stats_order_independent (maps its1 its2 : list (list (K * V))) k :
+  Forall (fun m => NoDup (map fst m)) maps ->
+  Forall2 (@Permutation _) its1 maps -> Forall2 (@Permutation _) its2 maps ->
+  lookup keqb k (merge_stats keqb its1) = lookup keqb k (merge_stats keqb its2).
+Proof.
+  intros HF P1 P2.
+  assert (G : forall its, Forall2 (@Permutation _) its maps ->
+              Forall (fun m => NoDup (map fst m)) its /\ merged_spec its k = merged_spec maps k).
+  { clear P1 P2. intros its P. induction P as [|i m its' maps' Him P IH]; [split; [constructor|reflexivity]|].
+    inversion HF as [|? ? Hm HF']; subst. destruct (IH HF') as [A B].
+    assert (Hi : NoDup (map fst i)) by (eapply Permutation_NoDup; [apply Permutation_map; apply Permutation_sym; exact Him|exact Hm]).
+    split; [constructor; assumption|]. cbn [merged_spec]. rewrite B. rewrite (lookup_perm i m k Him Hi). reflexivity. }
+  destruct (G its1 P1) as [A1 B1]. destruct (G its2 P2) as [A2 B2].
+  rewrite (merge_stats_spec its1 k A1), (merge_stats_spec its2 k A2), B1, B2. reflexivity.
+Qed.
+End Merge.
